@@ -128,6 +128,15 @@ func runGuarded(p Prop, sc *Scenario) (res *Result) {
 			res.Violate("harness-panic", "%v\n%s", r, buf[:n])
 		}
 	}()
+	for _, pre := range sc.Prelude {
+		if pre.N == nil {
+			pre.N = map[string]int64{}
+		}
+		func() {
+			defer func() { recover() }()
+			p.Run(pre)
+		}()
+	}
 	raceBefore, logOff := raceErrors(), raceLogSize()
 	res = p.Run(sc)
 	// (race build only) any report produced while this scenario ran is
@@ -623,6 +632,7 @@ func cmdCheck(args []string) int {
 	sort.SliceStable(found, func(i, j int) bool { return found[i].Class < found[j].Class })
 	seenShape := map[string]bool{}
 	reported := 0
+	historyTries := 0
 	for _, fv := range found {
 		if fv.Class == "harness-panic" {
 			fmt.Fprintf(os.Stderr, "harness panic in scenario %d: %s\n", fv.Scenario.Index, fv.Detail)
@@ -675,6 +685,20 @@ func cmdCheck(args []string) int {
 		for _, c := range classes {
 			if c == fv.Class {
 				ok = true
+			}
+		}
+		if !ok && fv.Class != "crash" && fv.Class != "data-race" && historyTries < 3 {
+			// Not reproducible alone: does it depend on what earlier scenarios of
+			// the same worker left behind in the process? Replay it after them.
+			historyTries++
+			if hp, hpath := withHistory(p, bin, fv, seed, *tier, nw, tmp); hp != nil {
+				min, path, ok = hp, hpath, true
+				shape = p.Shape(fv.Scenario, fv.Class) + "/after-earlier-executions"
+				if seenShape[shape] {
+					continue
+				}
+				seenShape[shape] = true
+				detail += "\n(reproduces only after an earlier execution in the same process: state left behind in the process changes the outcome; the replay file carries that execution as its prelude)"
 			}
 		}
 		if !ok {
@@ -809,6 +833,66 @@ func (t *tailWriter) Write(b []byte) (int, error) {
 
 // replayInChild runs "starsim replay --classes path" in a fresh process and
 // returns the violation classes it reported.
+// withHistory rebuilds the process history in front of a violation that does
+// not reproduce alone: the scenarios the same worker ran before it (same seed,
+// same stride), as a prelude. If the violation then reproduces in a fresh
+// process, the prelude is shrunk (halves, then single scenarios) and the
+// scenario-with-prelude is written as the replay file.
+func withHistory(p Prop, bin string, fv foundViolation, seed uint64, tier string, nw int, tmp string) (*Scenario, string) {
+	idx := fv.Scenario.Index
+	var pre []*Scenario
+	for j := idx % nw; j < idx; j += nw {
+		pre = append(pre, p.Generate(seed, j, tier))
+	}
+	if len(pre) == 0 {
+		return nil, ""
+	}
+	if len(pre) > 600 {
+		pre = pre[len(pre)-600:]
+	}
+	test := func(pl []*Scenario) bool {
+		c := fv.Scenario.Clone()
+		c.Prelude = pl
+		c.Expect = &Expect{Class: fv.Class}
+		f := filepath.Join(tmp, fmt.Sprintf("hist-%d.json", idx))
+		os.WriteFile(f, c.JSON(), 0o644)
+		classes, _ := replayInChild(bin, f)
+		return containsStr(classes, fv.Class)
+	}
+	if !test(pre) {
+		return nil, ""
+	}
+	// shrink: keep a half while it still reproduces, then try single scenarios
+	for len(pre) > 1 {
+		h := len(pre) / 2
+		if test(pre[h:]) {
+			pre = pre[h:]
+		} else if test(pre[:h]) {
+			pre = pre[:h]
+		} else {
+			break
+		}
+	}
+	if len(pre) > 1 && len(pre) <= 40 {
+		for i := len(pre) - 1; i >= 0 && len(pre) > 1; i-- {
+			cand := append(append([]*Scenario{}, pre[:i]...), pre[i+1:]...)
+			if test(cand) {
+				pre = cand
+			}
+		}
+	}
+	out := fv.Scenario.Clone()
+	out.Prelude = pre
+	out.Expect = &Expect{Class: fv.Class, Shape: p.Shape(fv.Scenario, fv.Class) + "/after-earlier-executions", Detail: fv.Detail}
+	os.MkdirAll(filepath.Join(verifDir(), "replays"), 0o755)
+	path := filepath.Join(verifDir(), "replays", fmt.Sprintf("%s-%d-%016x.json", p.ID(), seed, hashStr(string(out.JSON()))))
+	os.WriteFile(path, out.JSON(), 0o644)
+	if classes, _ := replayInChild(bin, path); !containsStr(classes, fv.Class) {
+		return nil, ""
+	}
+	return out, path
+}
+
 func replayInChild(self, path string) (classes []string, crashed bool) {
 	cmd := exec.Command(self, "replay", "-classes", path)
 	rlog := filepath.Join(os.TempDir(), fmt.Sprintf("starsim-race-%d", os.Getpid()))
